@@ -1063,7 +1063,83 @@ def sc_c_reentry_callbacks(r):
 """ + "".join(parts), inner=inner, k=r.randint(1, 6), n=r.randint(3, 9), u=r.randrange(1 << 30))]
 
 
+def sc_symbol_collisions(r):
+    """thousands of interned symbols / keywords, live ones interleaved with ones that die: the cache's probe chains
+    run over tombstones left by the sweep and entries moved forward over them; every live name must still
+    intern to the one object (seeded change C01-7 cut a chain when an entry was moved).  The bulk is created and
+    looked up with the schedule suspended (a collection per safepoint over thousands of live symbols is slow, and
+    dense tombstones need the symbols to die together); the schedule decides whether the sweep in between happens."""
+    n = r.choice([1000, 2000, 3000])
+    pre = r.choice(["c", "col", "zz-"])
+    return [T(r"""
+(def live @{})
+(defn round [base]
+  (for i 0 $n
+    (def nm (string "$pre" base "-" i))
+    (if (= 0 (% i 3)) (put live (symbol nm) i) (do (symbol nm) (keyword nm))))   # two of three die
+  nil)
+(sim/gc :off)
+(round 0)
+(sim/gc :on)
+(churn $k)
+(sim/gc :off)
+(round 1)
+(sim/gc :on)
+(churn $k)
+(sim/gc :off)
+# look every live name up again, through freshly built strings, in two orders
+(var missing 0) (var wrong 0)
+(each base [0 1]
+  (for i 0 $n
+    (when (= 0 (% i 3))
+      (def v (get live (symbol (string "$pre" base "-" i))))
+      (cond (nil? v) (++ missing) (not= v i) (++ wrong)))))
+(for j 0 $n
+  (def i (- $n 1 j))
+  (when (= 0 (% i 3))
+    (unless (= i (get live (symbol (string "$pre" 1 "-" i)))) (++ missing))))
+(sim/gc :on)
+(emit "sym-collisions" (length live) missing wrong)
+(churn 1)
+(emit "sym-collisions-2" (length live) (get live (symbol (string "$pre" 1 "-" 0))) (get live (symbol (string "$pre" 0 "-" 3))))
+""", n=n, pre=pre, k=r.randint(1, 4)), "symcollide"]
+
+
+def sc_duplex_stream_two_fibers(r):
+    """one fiber parked reading a socket while another fiber completes a write on the same stream: the stream is
+    rooted once per pending operation and stays alive for the reader when the writer's operation ends, also when
+    nothing else refers to it (seeded change C01-9 rooted it only for the first operation)"""
+    n = r.randint(1, 2000)
+    return [T(r"""
+(def name (string "@jsim-c01-" (os/getpid) "-" $u))
+(def srv (net/listen :unix name))
+(def done (ev/chan 2))
+(defn launch []
+  (def c (net/connect :unix name))
+  (def a (net/accept srv))
+  # reader and writer share the accepted stream; neither fiber is referenced from here
+  (ev/go (fn [] (def got (ev/read a $m)) (emit "duplex-read" (if got (length got) :eof) (if got (sim/hash got))) (ev/give done 1)))
+  (ev/go (fn [] (ev/write a (sim/fill $w 0 $n)) (ev/give done 2)))
+  c)
+(def c (launch))
+(ev/sleep 0)
+(churn $k)
+(emit "duplex-first" (ev/take done))
+(churn $k)
+(def b (ev/chunk c $n))
+(emit "duplex-peer-got" (length b) (sim/hash b))
+(churn $k)
+(ev/write c (sim/fill $w2 0 $m))
+(churn 1)
+(emit "duplex-second" (ev/take done))
+(ev/close c)
+(ev/close srv)
+""", n=n, m=r.randint(1, 500), w=r.randint(1, 9), w2=r.randint(10, 19), k=r.randint(1, 6), u=r.randrange(1 << 30))]
+
+
 SCENARIOS = {
+    "symbol_collisions": sc_symbol_collisions,
+    "duplex_stream_two_fibers": sc_duplex_stream_two_fibers,
     "c_reentry_callbacks": sc_c_reentry_callbacks,
     "operator_methods": sc_operator_methods,
     "tailcall_optargs": sc_tailcall_optargs,
